@@ -1,6 +1,7 @@
 package main
 
 import (
+	"strconv"
 	"strings"
 
 	"ti/base"
@@ -126,4 +127,65 @@ func opFindNS(args string) string {
 
 func init() {
 	ops["findns"] = opFindNS
+}
+
+func dash(s string) string {
+	if s == "-" {
+		return ""
+	}
+	return s
+}
+
+// lookup <i|c> <frame> <cls> <method> <priv> | frame~cls~method~priv~static;... | cf~cc~pf~pc~inc~ext;... | a,b,c
+// -> the index of the definition base.GetMethodT / base.GetClassMethodT resolves ("none" when nothing)
+func opLookup(args string) string {
+	parts := strings.Split(args, " | ")
+	q := strings.Split(parts[0], " ")
+	for k := range base.TFrame {
+		delete(base.TFrame, k)
+	}
+	for k := range base.ClassInheritanceMap {
+		delete(base.ClassInheritanceMap, k)
+	}
+	base.BuiltinClasses = nil
+	for _, c := range strings.Split(strings.TrimSpace(parts[3]), ",") {
+		if c != "" {
+			base.BuiltinClasses = append(base.BuiltinClasses, c)
+		}
+	}
+	for i, e := range strings.Split(strings.TrimSpace(parts[1]), ";") {
+		if e == "" {
+			continue
+		}
+		f := strings.Split(e, "~")
+		mt := base.MakeMethod(dash(f[0]), f[2], *base.MakeObject("R" + strconv.Itoa(i)), nil)
+		if f[4] == "1" {
+			base.SetClassMethodT(dash(f[0]), dash(f[1]), mt, f[3] == "1", "f", 0)
+		} else {
+			base.SetMethodT(dash(f[0]), dash(f[1]), mt, f[3] == "1", "f", 0)
+		}
+	}
+	for _, e := range strings.Split(strings.TrimSpace(parts[2]), ";") {
+		if e == "" {
+			continue
+		}
+		f := strings.Split(e, "~")
+		child := base.ClassNode{Frame: dash(f[0]), Class: dash(f[1])}
+		parent := base.ClassNode{Frame: dash(f[2]), Class: dash(f[3]), IsInclude: f[4] == "1", IsExtend: f[5] == "1"}
+		base.ClassInheritanceMap[child] = append(base.ClassInheritanceMap[child], parent)
+	}
+	var r *base.T
+	if q[0] == "c" {
+		r = base.GetClassMethodT(dash(q[1]), dash(q[2]), q[3], q[4] == "1")
+	} else {
+		r = base.GetMethodT(dash(q[1]), dash(q[2]), q[3], q[4] == "1")
+	}
+	if r == nil {
+		return "none"
+	}
+	return r.GetObjectClass()
+}
+
+func init() {
+	ops["lookup"] = opLookup
 }
